@@ -39,7 +39,8 @@ def run():
                              env={"VERIF_DEVS": _devs()},
                              # a call that did not return within the workers' limit is re-executed with three times
                              # the limit before it is reported: the machine may be busy, the verdict must not be
-                             replay_env={"ZV_HUNG_S": "60"})
+                             replay_env={"ZV_HUNG_S": "60"},
+                             noise=lambda c: any(o and o[0] == "hung" for o in c["outs"]))
     by = collections.Counter((c["src"], c["cfg"], c["entry"]) for c in cases.values())
     outs = collections.Counter(o[0] for c in cases.values() for o in c["outs"])
     texts = set(t for c in cases.values() for t in c["texts"])
